@@ -2,7 +2,7 @@ SPECIFICATION Spec
 CONSTANTS
   Params <- SendWrapReal
   MaxBase = 1000000
-  MaxHist = 1000000
+  MaxHist = 3
 VIEW View
 ACTION_CONSTRAINT PrintScript
 CHECK_DEADLOCK FALSE
